@@ -339,18 +339,21 @@ def run_seq(spec, acc):
     acc.case(('seq', sketch, tuple(shapes)), True)
 
 
-def nested_builder(mode, log):
-  """Returns a callable that calls fdl.build from inside a build."""
+def nested_builder(mode, log, attempts, tag):
+  """Returns a callable that calls fdl.build (`attempts` times) from inside a build."""
   inner = fdl.Config(kinds.two, x=1)
 
   def fn(uid=None, a=None):
-    try:
-      r = fdl.build(inner)
-      log.append(('inner-build-succeeded', r))
-    except Exception as e:  # pylint: disable=broad-except
-      log.append(('inner-build-raised', type(e).__name__))
-      if mode == 'propagate':
-        raise
+    first_error = None
+    for k in range(attempts):
+      try:
+        r = fdl.build(inner)
+        log.append((tag, k, 'inner-build-succeeded'))
+      except Exception as e:  # pylint: disable=broad-except
+        log.append((tag, k, 'inner-build-raised'))
+        first_error = first_error or e
+    if mode == 'propagate' and first_error is not None:
+      raise first_error
     return rec.rec('nested_builder', {'uid': uid, 'a': a})
 
   return fn
@@ -358,12 +361,18 @@ def nested_builder(mode, log):
 
 def run_nested(spec, acc):
   for _, rng in acc.cases(spec):
-    mode = rng.choice(['swallow', 'propagate'])
+    mode = rng.choice(['swallow', 'swallow', 'propagate'])
     in_thread = rng.random() < 0.5
     log = []
-    fn = nested_builder(mode, log)
-    target = gen.B('Config', fn, kw={'uid': gen.Leaf(1), 'a': gen.Leaf(rng.choice([1, 'x']))})
-    root = gen.B('Config', kinds.node, kw={'uid': gen.Leaf(2), 'a': gen.Seq('list', [target])})
+    # one or two nesting callables in the same outer build, each trying 1-3 times: EVERY
+    # attempt must be rejected (a swallowed rejection must not disarm the guard)
+    n_callables = rng.choice([1, 2, 2])
+    targets = []
+    for t in range(n_callables):
+      fn = nested_builder(mode if t == n_callables - 1 else 'swallow', log, rng.randint(1, 3), f'c{t}')
+      targets.append(gen.B('Config', fn, kw={'uid': gen.Leaf(10 + t), 'a': gen.Leaf(rng.choice([1, 'x']))}))
+    root = gen.B('Config', kinds.node, kw={'uid': gen.Leaf(2), 'a': gen.Seq('list', targets),
+                                          'b': gen.B('Config', kinds.two, kw={'x': gen.Leaf(0)})})
     cfg = gen.to_fiddle(root)
     before = C.canon(cfg, 'frame')
     out = {}
@@ -387,14 +396,17 @@ def run_nested(spec, acc):
       t.join()
     else:
       body()
-    acc.obs('nested_build_attempts')
+    acc.obs('nested_build_attempts', len(log))
 
     def witness():
-      return {'mode': mode, 'thread': in_thread, 'log': [x[0] for x in log],
+      return {'mode': mode, 'thread': in_thread, 'log': [list(x) for x in log],
               'outer': safe_repr(out.get('r')), 'followup': safe_repr(out.get('f'))}
 
-    if not log or log[0][0] != 'inner-build-raised':
-      acc.violation('nested-build-not-rejected', 'fdl.build inside a callable being built did '
+    accepted = [x for x in log if x[2] != 'inner-build-raised']
+    if not log or accepted:
+      first = accepted[0] if accepted else None
+      which = 'first-attempt' if (first and first[1] == 0 and first[0] == 'c0') else 'after-an-earlier-rejection'
+      acc.violation(f'nested-build-not-rejected:{which}', 'fdl.build inside a callable being built did '
                     'not raise', witness())
     if mode == 'swallow' and out['r'][0] != 'ok':
       acc.violation('outer-build-fails-after-rejected-nested-build',
@@ -408,7 +420,7 @@ def run_nested(spec, acc):
       acc.obs('followup_builds_ok')
     if C.canon(cfg, 'frame') != before:
       acc.violation('config-modified-by-failed-build:nested-build', 'frame canon changed', witness())
-    acc.case(('nested', mode, in_thread), True)
+    acc.case(('nested', mode, in_thread, n_callables, len(log)), True)
 
 
 CRASH_FILES = ('fiddle/_src/building.py', 'fiddle/_src/daglish.py',
